@@ -233,8 +233,8 @@ Section LexFacts.
 
   Lemma plural_digit_none c0 c1 r :
     c1 <> 39%N ->
-    (c1 <> 115%N \/ exists x r', r = x :: r' /\ is_ascii_alnum x = true) ->
-    lex_plural_digit (c0 :: c1 :: r) = None.
+    (c1 <> 115%N \/ exists x r', r = x :: r' /\ u_alnum U x = true) ->
+    lex_plural_digit U (c0 :: c1 :: r) = None.
   Proof.
     intros H39 H. cbn [lex_plural_digit].
     destruct (negb (is_ascii_alnum c0)); [reflexivity|].
@@ -317,6 +317,28 @@ Section LexFacts.
     rewrite Hsp, (drop_digits_all _ HD). cbn [length]. reflexivity.
   Qed.
 
+  Lemma two53_finite : (two53 < f64_round_to_inf)%N.
+  Proof. vm_compute. reflexivity. Qed.
+  Lemma finite_digits (D : text) :
+    D <> [] -> Forall (fun c => is_ascii_digit c = true) D -> (parse_dec D < two53)%N -> finite_f64 D = true.
+  Proof.
+    intros Hne HD Hlt. destruct D as [|d0 D']; [contradiction|].
+    inversion HD as [|? ? Hd0 HD']; subst.
+    pose proof (proj1 (digit_range d0) Hd0) as R.
+    unfold finite_f64.
+    assert (Hs : strip_sign (d0 :: D') = d0 :: D').
+    { cbn [strip_sign]. rewrite (neqb d0 43), (neqb d0 45) by lia. reflexivity. }
+    rewrite Hs.
+    assert (Hsp : is_special_float (d0 :: D') = false).
+    { unfold is_special_float. cbn [map]. rewrite (lower_ascii_digit _ Hd0).
+      rewrite !text_eqb_head_ne by lia. reflexivity. }
+    rewrite Hsp, (drop_digits_all _ HD). cbn [length]. rewrite Nat.sub_0_r.
+    change (firstn (S (length D')) (d0 :: D')) with (firstn (length (d0 :: D')) (d0 :: D')). rewrite firstn_all.
+    unfold finite_dec. destruct (parse_dec (d0 :: D') =? 0)%N; [reflexivity|].
+    cbn [N.of_nat N.leb N.compare N.sub N.ltb N.pow]. rewrite N.mul_1_r.
+    apply N.ltb_lt. pose proof two53_finite. lia.
+  Qed.
+
   Lemma value_of_digits (D : text) :
     Forall (fun c => is_ascii_digit c = true) D -> (parse_dec D < two53)%N -> value_of D = VInt (parse_dec D).
   Proof.
@@ -329,16 +351,16 @@ Section LexFacts.
   Proof. unfold is_float_char. intros ->. reflexivity. Qed.
 
   Lemma longest_float_hit k src :
-    parses_f64 (firstn (S k) src) = true ->
+    parses_f64 (firstn (S k) src) = true -> finite_f64 (firstn (S k) src) = true ->
     longest_float (S k) src = Some (S k, KNumber (value_of (firstn (S k) src)) None).
-  Proof. intros H. cbn [longest_float]. rewrite H. reflexivity. Qed.
+  Proof. intros H F. cbn [longest_float]. rewrite H, F. reflexivity. Qed.
 
   Lemma lex_number_digits (D : text) (a : N) (rest : text) :
-    D <> [] -> Forall (fun c => is_ascii_digit c = true) D ->
+    D <> [] -> Forall (fun c => is_ascii_digit c = true) D -> (parse_dec D < two53)%N ->
     is_float_char a = false ->
     lex_number U (D ++ a :: rest) = Some (length D, KNumber (value_of D) None).
   Proof.
-    intros Hne HD Ha. destruct D as [|d0 D']; [contradiction|].
+    intros Hne HD Hlt Ha. destruct D as [|d0 D']; [contradiction|].
     assert (Hd0 : is_ascii_digit d0 = true) by (inversion HD; assumption).
     unfold lex_number. cbn [app]. rewrite (L_digit_numeric _ Hd0). cbn [negb].
     change (d0 :: D' ++ a :: rest) with ((d0 :: D') ++ a :: rest).
@@ -350,7 +372,9 @@ Section LexFacts.
       assert (HL : S (length D - 1) = length D) by (rewrite ED; cbn [length]; lia).
       assert (HP : parses_f64 (firstn (S (length D - 1)) (D ++ a :: rest)) = true).
       { rewrite HL, firstn_app_len. apply parses_digits; assumption. }
-      rewrite (longest_float_hit _ _ HP), HL, firstn_app_len. reflexivity.
+      assert (HF : finite_f64 (firstn (S (length D - 1)) (D ++ a :: rest)) = true).
+      { rewrite HL, firstn_app_len. apply finite_digits; assumption. }
+      rewrite (longest_float_hit _ _ HP HF), HL, firstn_app_len. reflexivity.
     - eapply Forall_impl; [|exact HD]. intros c Hc. cbv beta in Hc. rewrite (is_float_char_digit _ Hc). reflexivity.
     - rewrite Ha. reflexivity.
   Qed.
@@ -370,14 +394,14 @@ Section LexFacts.
     pose proof (proj1 (alpha_range a) Ha) as Ra. pose proof (proj1 (alpha_range b) Hb) as Rb.
     assert (Hfa : is_float_char a = false).
     { unfold is_float_char. rewrite (alpha_not_digit _ Ha), Hafl. reflexivity. }
-    pose proof (lex_number_digits D a (b :: post) Hne HD Hfa) as EN.
+    pose proof (lex_number_digits D a (b :: post) Hne HD Hlt Hfa) as EN.
     rewrite (value_of_digits _ HD Hlt) in EN.
     destruct D as [|d0 D']; [contradiction|].
     assert (Hd0 : is_ascii_digit d0 = true) by (inversion HD; assumption).
     pose proof (proj1 (digit_range d0) Hd0) as R0.
-    assert (E6 : lex_plural_digit ((d0 :: D') ++ a :: b :: post) = None).
+    assert (E6 : lex_plural_digit U ((d0 :: D') ++ a :: b :: post) = None).
     { destruct D' as [|d1 D'']; cbn [app].
-      - apply plural_digit_none; [lia|]. right. exists b, post. split; [reflexivity | apply alpha_alnum; exact Hb].
+      - apply plural_digit_none; [lia|]. right. exists b, post. split; [reflexivity | apply L_alpha_alnum; exact Hb].
       - assert (Hd1 : is_ascii_digit d1 = true) by (inversion HD as [|? ? _ H1]; inversion H1; assumption).
         apply digit_range in Hd1. apply plural_digit_none; [lia | left; lia]. }
     assert (E7 : lex_hex_number U ((d0 :: D') ++ a :: b :: post) = None).
@@ -473,7 +497,7 @@ Section LexFacts.
     longest_float k src = Some (n, kd) -> 1 <= n <= k /\ exists v, kd = KNumber v None.
   Proof.
     induction k as [|k IH]; intros src n kd H; cbn [longest_float] in H; [discriminate|].
-    destruct (parses_f64 (firstn (S k) src)).
+    destruct (parses_f64 (firstn (S k) src) && finite_f64 (firstn (S k) src)).
     - injection H as <- <-. split; [lia | eexists; reflexivity].
     - apply IH in H. destruct H as [H1 H2]. split; [lia | exact H2].
   Qed.
@@ -521,7 +545,7 @@ Section LexFacts.
         destruct (s =? 115)%N; [|discriminate].
         destruct r3 as [|x r4].
         + apply some_inj in H; subst r. tok_ok_trivial.
-        + destruct (negb (is_ascii_alnum x)); [|discriminate]. apply some_inj in H; subst r. tok_ok_trivial.
+        + destruct (negb (u_alnum U x)); [|discriminate]. apply some_inj in H; subst r. tok_ok_trivial.
       - (* hex *)
         intros r H. cbn [lex_hex_number] in H.
         destruct rest as [|c1 [|c2 rest']]; try discriminate.
@@ -733,16 +757,18 @@ Section LexFacts.
         destruct (negb (is_ascii_alnum c0)); [discriminate|].
         destruct (c1 =? 39)%N; cbn [snd fst] in H.
         * rewrite (neqb d0 115) in H by lia. discriminate.
-        * destruct (c1 =? 115)%N; [|discriminate].
-          rewrite (digit_alnum _ Hd0) in H. discriminate.
+        * (* c1 = 's' would be the last character of the context, but that one is not a word character *)
+          destruct (c1 =? 115)%N eqn:E115; [|discriminate]. exfalso.
+          apply N.eqb_eq in E115. subst c1. cbn [last_error] in Hlast. injection Hlast as <-.
+          rewrite L_alpha_lingual in Hcl by reflexivity. discriminate.
       + cbn [lex_plural_digit] in H.
         destruct (negb (is_ascii_alnum c0)); [discriminate|].
         destruct (c1 =? 39)%N; cbn [snd fst] in H.
         * destruct (c2 =? 115)%N; [|discriminate].
-          revert H. destruct (pre3 ++ rest) as [|x xs]; [|destruct (negb (is_ascii_alnum x)); [|intros H0; discriminate]];
+          revert H. destruct (pre3 ++ rest) as [|x xs]; [|destruct (negb (u_alnum U x)); [|intros H0; discriminate]];
             intros H; apply some_inj in H; subst r; cbn [fst length]; lia.
         * destruct (c1 =? 115)%N; [|discriminate].
-          destruct (negb (is_ascii_alnum c2)); [|discriminate].
+          destruct (negb (u_alnum U c2)); [|discriminate].
           apply some_inj in H; subst r; cbn [fst length]; lia.
     - (* word: it stops at the last character of the context at the latest *)
       intros r H. unfold lex_word in H.
@@ -779,8 +805,7 @@ Section LexFacts.
   Lemma lex_loop_plain : forall (fuel : nat) (t : text) (q : nat),
     length t <= fuel ->
     Forall (fun c => u_numeric U c = false) t -> Forall (fun c => c <> 64%N) t ->
-    exists L, lex_loop U ut et fuel q t = Ok L /\ nonum L /\ wordwf L
-              /\ (match t with c :: _ => is_apostrophe_char c = false | [] => True end -> hd_not_apostrophe L).
+    exists L, lex_loop U ut et fuel q t = Ok L /\ nonum L /\ wordwf L.
   Proof.
     induction fuel as [|f IH]; intros t q Hlen Hnum Hat.
     - destruct t; [|cbn in Hlen; lia]. exists []. cbn. repeat split; constructor.
@@ -789,7 +814,7 @@ Section LexFacts.
       + destruct (lex_token_ok c0 rest (email_none _ Hat)) as [[n k] [Htok (Hn & Hk & Hap)]].
         cbn [fst snd] in *.
         rewrite (lex_loop_step _ _ _ _ _ _ Htok).
-        destruct (IH (skipn n (c0 :: rest)) (q + n)) as (L & HL & Hnn & Hwf & _).
+        destruct (IH (skipn n (c0 :: rest)) (q + n)) as (L & HL & Hnn & Hwf).
         * rewrite skipn_length. cbn [length] in *. lia.
         * apply Forall_skipn. exact Hnum.
         * apply Forall_skipn. exact Hat.
@@ -799,9 +824,6 @@ Section LexFacts.
              assert (u_numeric U c0 = true) by (eapply Hk; reflexivity).
              inversion Hnum; congruence.
           -- constructor; [|exact Hwf]. cbn [tspan sstart send]. intros _. lia.
-          -- intros Hc. cbn [hd_not_apostrophe]. unfold is_apostrophe. cbn [tkind].
-             destruct k as [| | | | |p| | | | | |]; try reflexivity. destruct p; try reflexivity.
-             rewrite Hap in Hc by reflexivity. discriminate.
   Qed.
 
   Lemma bind_ok_app {A} (x : res (list A)) : (do tl <- x; Ok ([] ++ tl)) = x.
@@ -877,7 +899,7 @@ Section LexFacts.
     /\ Forall (fun c => u_numeric U c = false) post /\ Forall (fun c => c <> 64%N) post
     /\ match last_error pre with Some cl => u_lingual U cl = false | None => True end
     /\ match post with
-       | c :: _ => u_lingual U c = false /\ is_ascii_digit c = false /\ is_apostrophe_char c = false
+       | c :: _ => u_lingual U c = false /\ is_ascii_digit c = false
        | [] => True end
     /\ has_scheme_mark (pre ++ D ++ [a; b] ++ post) = false
     /\ dots_ok (pre ++ D ++ [a; b] ++ post) = true.
@@ -904,7 +926,7 @@ Section LexFacts.
       lex_doc U ut et (pre ++ D ++ [a; b] ++ post) =
         Ok (LA ++ mktok (mkspan (length pre) (length pre + length D)) (KNumber (VInt (parse_dec D)) None)
                :: mktok (mkspan (length pre + length D) (length pre + length D + 2)) KWord :: LB)
-      /\ nonum LA /\ nonum LB /\ wordwf LA /\ wordwf LB /\ hd_not_apostrophe LB.
+      /\ nonum LA /\ nonum LB /\ wordwf LA /\ wordwf LB.
   Proof.
     intros Hne HD Hlt Hrow Hctx. unfold text, char in *.
     destruct (ctx_ok_unpack _ _ _ _ _ Hctx) as (Hpre & Hpre_at & Hpost_num & Hpost_at & Hlast & Hhd & Hmark & Hdots).
@@ -946,11 +968,10 @@ Section LexFacts.
         rewrite app_assoc, <- app_length, skipn_app_len in Hq. exact Hq. }
     rewrite (lex_loop_step _ _ _ _ _ _ HW) in HL. unfold text, char in HL. cbn [skipn] in HL.
     (* the right context *)
-    destruct (lex_loop_plain f2 post (0 + length pre + length D + 2)) as (LB & HLB & HnB & HwB & HaB);
+    destruct (lex_loop_plain f2 post (0 + length pre + length D + 2)) as (LB & HLB & HnB & HwB);
       [unfold text, char in *; lia | exact Hpost_num | exact Hpost_at |].
     rewrite HLB in HL. cbn [bind] in HL.
     exists LA, LB. unfold lex_doc. subst T. unfold text, char in *. rewrite HL. cbn [Nat.add].
-    repeat split; try assumption.
-    apply HaB. destruct post as [|c post']; [exact I | tauto].
+    repeat split; assumption.
   Qed.
 End LexFacts.
